@@ -58,6 +58,18 @@ def handleShiftOrPair (op : String) (args : List String) : Option String :=
     let i2 ← parseU8 i2
     let n : Slice := Slice.ofMem { region := 1, base := 0, bytes := nbytes }
     some (fmtRes fmtOptPair 1 (.ok (Pair.withIndices n i1 i2) {}))
+  | "pairreport", [needle, i1, i2] => do
+    let nbytes ← parseHex needle
+    let i1 ← parseU8 i1
+    let i2 ← parseU8 i2
+    let n : Slice := Slice.ofMem { region := 1, base := 0, bytes := nbytes }
+    match Pair.withIndices n i1 i2 with
+    | none => some "ok badpair steps=0 loads=-"
+    | some p =>
+      match Fallback.withPair n p {} with
+      | .fault e => some (fmtFault e)
+      | .ok none _ => some "ok nofinder steps=0 loads=-"
+      | .ok (some f) _ => some s!"ok {f.pair.index1.toNat},{f.pair.index2.toNat} steps=0 loads=-"
   | "fbpre", [needle, i1, i2, base, hay] => do
     let nbytes ← parseHex needle
     let i1 ← parseU8 i1
